@@ -143,6 +143,17 @@ def audit(prop):
     return names, discharged, detail
 
 
+def recheck(prop):
+    """thorough tier: re-check the compiled module of the property's theorems with leanchecker, the toolchain's independent re-checker of
+    .olean files (replays every declaration of the module through the kernel).  Returns (ok, log tail)."""
+    mods = [f'PjVerif.Props.{prop}']
+    if prop in ('C02', 'C06', 'C08', 'C09', 'C15'):
+        mods.append('PjVerif.Props.Witness')
+    rc, out = sh(['lake', 'env', 'leanchecker'] + mods, cwd=LEAN)
+    bad = rc != 0 or 'uncaught exception' in out or 'error' in out.lower()
+    return not bad, out[-1500:]
+
+
 _DRV = None
 
 
